@@ -213,16 +213,27 @@ Inductive stmt :=
 | SBreak.
 
 (* k_sig: the numba signature of the decorator (dtype and rank of each parameter, rank 0 = scalar);
-   k_ret: the returned arrays *)
-Record kernel := mkKernel { k_sig : list (dtype * nat); k_body : list stmt; k_ret : list nat }.
+   k_nsc / k_nar: number of scalar / array variables (parameters included); k_ret: the returned arrays *)
+Record kernel := mkKernel { k_sig : list (dtype * nat); k_nsc : nat; k_nar : nat;
+                            k_body : list stmt; k_ret : list nat }.
 
 (* ---------------------------------------------------------------- evaluation *)
 
-Record state := mkSt { sv : nat -> option val; sa : nat -> option arr }.
-Definition upd {A : Type} (f : nat -> option A) (k : nat) (v : A) : nat -> option A :=
-  fun j => if Nat.eqb j k then Some v else f j.
-Definition setv (x : nat) (v : val) (st : state) : state := mkSt (upd (sv st) x v) (sa st).
-Definition seta (a : nat) (A : arr) (st : state) : state := mkSt (sv st) (upd (sa st) a A).
+(* scalars and arrays are numbered; a slot is [None] until the variable is assigned *)
+Record state := mkSt { sv : list (option val); sa : list (option arr) }.
+Fixpoint set_nth {A : Type} (k : nat) (v : A) (l : list (option A)) : list (option A) :=
+  match k, l with
+  | O, [] => [Some v]
+  | O, _ :: t => Some v :: t
+  | S k', [] => None :: set_nth k' v []
+  | S k', x :: t => x :: set_nth k' v t
+  end.
+Definition get_nth {A : Type} (l : list (option A)) (k : nat) : option A :=
+  match nth_error l k with Some (Some v) => Some v | _ => None end.
+Definition getv (st : state) (x : nat) : option val := get_nth (sv st) x.
+Definition geta (st : state) (a : nat) : option arr := get_nth (sa st) a.
+Definition setv (x : nat) (v : val) (st : state) : state := mkSt (set_nth x v (sv st)) (sa st).
+Definition seta (a : nat) (A : arr) (st : state) : state := mkSt (sv st) (set_nth a A (sa st)).
 
 Definition as_int (o : option val) : option Z :=
   match o with Some (VInt z) => Some z | _ => None end.
@@ -230,24 +241,24 @@ Definition as_int (o : option val) : option Z :=
 Fixpoint eval (st : state) (e : expr) : option val :=
   match e with
   | EInt z => Some (VInt z)
-  | EVar x => sv st x
+  | EVar x => getv st x
   | EShape a k =>
-      match sa st a with
+      match geta st a with
       | Some A => match nth_error (ashape A) k with Some n => Some (VInt n) | None => None end
       | None => None
       end
   | ELoad1 a i =>
-      match sa st a, as_int (eval st i) with
+      match geta st a, as_int (eval st i) with
       | Some A, Some i' => aread A [i']
       | _, _ => None
       end
   | ELoad2 a i j =>
-      match sa st a, as_int (eval st i), as_int (eval st j) with
+      match geta st a, as_int (eval st i), as_int (eval st j) with
       | Some A, Some i', Some j' => aread A [i'; j']
       | _, _, _ => None
       end
   | ELoad3 a i j k =>
-      match sa st a, as_int (eval st i), as_int (eval st j), as_int (eval st k) with
+      match geta st a, as_int (eval st i), as_int (eval st j), as_int (eval st k) with
       | Some A, Some i', Some j', Some k' => aread A [i'; j'; k']
       | _, _, _, _ => None
       end
@@ -258,7 +269,7 @@ Fixpoint eval (st : state) (e : expr) : option val :=
       | _, _ => None
       end
   | ESumSlice a lo hi j =>
-      match sa st a, as_int (eval st lo), as_int (eval st hi), as_int (eval st j) with
+      match geta st a, as_int (eval st lo), as_int (eval st hi), as_int (eval st j) with
       | Some A, Some l, Some h, Some j' => asum_slice A l h j'
       | _, _, _, _ => None
       end
@@ -301,7 +312,7 @@ Fixpoint loop (body : state -> res) (x : nat) (its : list Z) (st : state) : res 
   end.
 
 Definition store (a : nat) (idx : list expr) (rhs : arr -> list Z -> option val) (st : state) : res :=
-  match sa st a, eval_ints st idx with
+  match geta st a, eval_ints st idx with
   | Some A, Some zs =>
       match rhs A zs with
       | Some v => match awrite A zs v with
@@ -339,9 +350,9 @@ Fixpoint exec (s : stmt) (st : state) {struct s} : res :=
                    then ROk (seta a (mkArr sh (fun _ => dzero d)) st) else RErr
       | None => RErr
       end
-  | SCopy a b => match sa st b with Some B => ROk (seta a B st) | None => RErr end
+  | SCopy a b => match geta st b with Some B => ROk (seta a B st) | None => RErr end
   | SRowCopy a i b j =>
-      match sa st a, sa st b, as_int (eval st i), as_int (eval st j) with
+      match geta st a, geta st b, as_int (eval st i), as_int (eval st j) with
       | Some A, Some B, Some i', Some j' =>
           match row_copy A B i' j' with Some A' => ROk (seta a A' st) | None => RErr end
       | _, _, _, _ => RErr
@@ -377,10 +388,11 @@ Fixpoint collect {A : Type} (l : list (option A)) : option (list A) :=
   end.
 
 (* scalars / arrays: the actual parameters, in the order of the Python signature *)
-Definition init_state (scalars : list val) (arrays : list arr) : state :=
-  mkSt (fun i => nth_error scalars i) (fun i => nth_error arrays i).
+Definition init_state (k : kernel) (scalars : list val) (arrays : list arr) : state :=
+  mkSt (map Some scalars ++ repeat None (k_nsc k - length scalars))
+       (map Some arrays ++ repeat None (k_nar k - length arrays)).
 Definition run_kernel (k : kernel) (scalars : list val) (arrays : list arr) : option (list arr) :=
-  match exec_block (k_body k) (init_state scalars arrays) with
-  | ROk st => collect (map (sa st) (k_ret k))
+  match exec_block (k_body k) (init_state k scalars arrays) with
+  | ROk st => collect (map (geta st) (k_ret k))
   | _ => None
   end.
